@@ -31,6 +31,8 @@ func GenCase(prop, tier string, base uint64, idx int) *Case {
 		c = genLivingCase(prop, tier, r)
 	case "C14":
 		c = genCommandCase(prop, tier, r)
+	case "C13":
+		c = genHistoryCase(prop, tier, r)
 	case "C01":
 		c = genRoundTripCase(prop, tier, r)
 	case "C02":
@@ -56,6 +58,8 @@ func RunCase(t *testing.T, c *Case) *CaseResult {
 		return runCommandCase(t, c)
 	case "stream":
 		return runStreamCase(t, c)
+	case "history":
+		return runHistoryCase(t, c)
 	}
 	cr := &CaseResult{Prop: c.Prop}
 	cr.violate(c.Prop+"/harness", "unknown engine "+c.Engine, "")
@@ -65,5 +69,3 @@ func RunCase(t *testing.T, c *Case) *CaseResult {
 func sampleOf(c *Case) interface{} {
 	return c
 }
-
-type HistoryCfg struct{}
